@@ -482,7 +482,7 @@ def isQ : PE → Bool
 
 def WfTop : PTop → Prop
   | .func name ps body => isQ name = true ∧ (∀ x ∈ ps, isReserved x = false) ∧ WfSs body
-  | .stmt s => WfS s ∧ closed s = true ∧ ∃ kw r, tkS s = .id kw :: r ∧ isReserved kw = true
+  | .stmt s => WfS s ∧ ∃ kw r, tkS s = .id kw :: r ∧ isReserved kw = true
 
 theorem qname_loop : ∀ (x : PE), isQ x = true → ∀ (rest : List Tok), qnameP (tk x ++ rest) = some (qnameTail x rest)
   | .ident g, h, rest => by
@@ -536,7 +536,7 @@ theorem paramsP_rt (ps : List Bytes) (rest : List Tok) (h : ∀ x ∈ ps, isRese
   | cons x r =>
     simp [tkParams, paramsP, h x (List.mem_cons_self ..), paramsTail_rt r rest (fun y hy => h y (List.mem_cons_of_mem _ hy))]
 
-theorem topN_rt (x : PTop) (w : WfTop x) (n : Nat) (hn : (tkTop x).length + 1 < n) (rest : List Tok) :
+theorem topN_rt (x : PTop) (w : WfTop x) (n : Nat) (hn : (tkTop x).length + 1 < n) (rest : List Tok) (hne : NoElse rest) :
     topN n (tkTop x ++ rest) = some (x, rest) := by
   cases x with
   | func name ps body =>
@@ -549,8 +549,8 @@ theorem topN_rt (x : PTop) (w : WfTop x) (n : Nat) (hn : (tkTop x).length + 1 < 
     simp only [funcRest, eat_self, eatId_self, paramsP_rt ps _ w.2.1, hb]
   | stmt s =>
     simp only [WfTop] at w
-    obtain ⟨ws, hc, kw, r, hk, hr⟩ := w
-    have := stmt_rt s ws n (by simp only [tkTop] at hn; omega) rest (fun h => by rw [hc] at h; cases h)
+    obtain ⟨ws, kw, r, hk, hr⟩ := w
+    have := stmt_rt s ws n (by simp only [tkTop] at hn; omega) rest (fun _ => hne)
     unfold topN
     simp only [tkTop]
     rw [this]
@@ -561,6 +561,41 @@ theorem tkTop_pos (x : PTop) : 0 < (tkTop x).length := by
   | func name ps body => simp [tkTop]; omega
   | stmt s => exact tkS_pos s
 
+theorem isQ_head : ∀ (x : PE), isQ x = true → ∃ g, headTok x = .id g ∧ isReserved g = false
+  | .ident g, h => ⟨g, rfl, by simpa [isQ] using h⟩
+  | .member x _, h => isQ_head x (by simpa [isQ] using h)
+  | .null, h => by simp [isQ] at h
+  | .bool _, h => by simp [isQ] at h
+  | .num _, h => by simp [isQ] at h
+  | .str _, h => by simp [isQ] at h
+  | .obj _, h => by simp [isQ] at h
+  | .paren _, h => by simp [isQ] at h
+  | .index _ _, h => by simp [isQ] at h
+  | .call _ _, h => by simp [isQ] at h
+  | .postInc _, h => by simp [isQ] at h
+  | .unary _ _, h => by simp [isQ] at h
+  | .bin _ _ _, h => by simp [isQ] at h
+  | .cond _ _ _, h => by simp [isQ] at h
+  | .assign _ _ _, h => by simp [isQ] at h
+
+/-- no SourceElement begins with `else` -/
+theorem tops_noElse : ∀ (xs : List PTop), (∀ x ∈ xs, WfTop x) → NoElse (tkTops xs)
+  | [], _ => rfl
+  | x :: r, h => by
+    have w := h x (List.mem_cons_self ..)
+    cases x with
+    | func name ps body =>
+      simp only [WfTop] at w
+      obtain ⟨t, ht⟩ := tk_head name
+      obtain ⟨g, hg, hr⟩ := isQ_head name w.1
+      simp only [tkTops, tkTop, List.append_assoc, ht, hg, List.cons_append, NoElse, eatId_cons]
+      have : g ≠ b!"else" := by intro e; subst e; revert hr; decide
+      simp [this]
+    | stmt s =>
+      simp only [WfTop] at w
+      simp only [tkTops, tkTop]
+      exact (stmt_start s w.1 _).2
+
 theorem progN_rt (n : Nat) : ∀ (xs : List PTop) (k : Nat), (∀ x ∈ xs, WfTop x ∧ (tkTop x).length + 1 < n) → xs.length ≤ k →
     progN n k (tkTops xs) = some xs
   | [], k, _, _ => by cases k <;> rfl
@@ -570,7 +605,7 @@ theorem progN_rt (n : Nat) : ∀ (xs : List PTop) (k : Nat), (∀ x ∈ xs, WfTo
     | succ k =>
       obtain ⟨w, hn⟩ := h x (List.mem_cons_self ..)
       have ih := progN_rt n r k (fun y hy => h y (List.mem_cons_of_mem _ hy)) (by simpa using hk)
-      have ht := topN_rt x w n hn (tkTops r)
+      have ht := topN_rt x w n hn (tkTops r) (tops_noElse r (fun y hy => (h y (List.mem_cons_of_mem _ hy)).1))
       have hp := tkTop_pos x
       cases hx : tkTop x with
       | nil => rw [hx] at hp; simp at hp
